@@ -10,6 +10,7 @@ import (
 	"fmt"
 	"strings"
 
+	common "github.com/PapaCharlie/go-restli/v2/restlidata/generated/com/linkedin/restli/common"
 	"verif/mc/hcli"
 	"verif/mc/ref/refror2"
 	"verif/mc/report"
@@ -113,6 +114,115 @@ func checkCreatedEnvelope(w *World, gen string, r *schema.Resource, m *schema.Me
 	return "", ""
 }
 
+
+// checkBatchEnvelope: the response body of a batch method with the given keys filed under results / errors /
+// statuses is {"results":{...}[,"errors":{...}][,"statuses":{...}]}: results - the one member the protocol requires -
+// is there even when it is empty (all keys failed, no keys), every member is an object keyed by the keys in ROR2
+// header form, and every response carries the protocol version header.
+func checkBatchEnvelope(w *World, gen string, r *schema.Resource, m *schema.Method, keys []*schema.V, kinds []string) (kind, detail string) {
+	w.reset()
+	call, reply := buildCall(gen, r, m, "none", nil)
+	call.BatchKeys = keys
+	if call.Entities != nil {
+		for len(call.Entities) < len(keys) {
+			call.Entities = append(call.Entities, call.Entities[0])
+		}
+		call.Entities = call.Entities[:len(keys)]
+	}
+	reply.Batch = nil
+	for i, k := range keys {
+		e := &BatchEntry{K: k, Has: map[string]bool{}}
+		switch kinds[i] {
+		case "result":
+			e.Has["results"] = true
+			if m.Name == "batch_get" {
+				e.Result = replyEntity(r.Schema, fmt.Sprint(i))
+			} else {
+				e.Status = 204
+			}
+		case "error":
+			e.Has["errors"] = true
+			st, msg := int32(404+i), fmt.Sprintf("no %d", i)
+			e.Err = &ErrV{Status: &st, Message: &msg}
+		}
+		reply.Batch = append(reply.Batch, e)
+	}
+	_, pan := w.Do(call, reply)
+	if pan != nil {
+		return "client-panic", fmt.Sprint(pan)
+	}
+	last := w.transport.Last()
+	if last == nil || last.Response == nil {
+		return "nothing-sent", ""
+	}
+	if v := last.Response.Header.Get("X-RestLi-Protocol-Version"); v != "2.0.0" {
+		return "protocol-version-header", fmt.Sprintf("status %d with X-RestLi-Protocol-Version %q", last.Response.StatusCode, v)
+	}
+	var body map[string]json.RawMessage
+	if err := json.Unmarshal(last.Body, &body); err != nil {
+		return "batch-envelope", fmt.Sprintf("response body %s is not a JSON object (%v)", last.Body, err)
+	}
+	members := map[string]map[string]json.RawMessage{}
+	for name, raw := range body {
+		var mm map[string]json.RawMessage
+		if err := json.Unmarshal(raw, &mm); err != nil || mm == nil {
+			return "batch-envelope", fmt.Sprintf("member %q of %s is not an object", name, last.Body)
+		}
+		members[name] = mm
+	}
+	if _, ok := members["results"]; !ok {
+		return "batch-envelope-results-missing", fmt.Sprintf("response body %s has no results member", last.Body)
+	}
+	keyT := ownKeyType(r)
+	for i, k := range keys {
+		where := map[string]string{"result": "results", "error": "errors"}[kinds[i]]
+		found := false
+		for text := range members[where] {
+			if v, err := refror2.DecodeText(keyT, text, refror2.Header); err == nil && schema.Equal(v, k) {
+				found = true
+			}
+		}
+		if !found {
+			return "batch-envelope-key", fmt.Sprintf("key %s scripted under %s is not there in %s", k, where, last.Body)
+		}
+	}
+	return "", ""
+}
+
+// checkErrorEnvelope: an error response reported by the resource method travels with its status, the error header,
+// the protocol version header and a JSON object body carrying the status.
+func checkErrorEnvelope(w *World, gen string, r *schema.Resource, m *schema.Method) (kind, detail string) {
+	w.reset()
+	call, reply := buildCall(gen, r, m, "none", nil)
+	st, msg := int32(404), "nothing here"
+	reply.Err = &common.ErrorResponse{Status: &st, Message: &msg}
+	_, pan := w.Do(call, reply)
+	if pan != nil {
+		return "client-panic", fmt.Sprint(pan)
+	}
+	last := w.transport.Last()
+	if last == nil || last.Response == nil {
+		return "nothing-sent", ""
+	}
+	if last.Response.StatusCode != 404 {
+		return "error-status", fmt.Sprintf("status %d, want 404", last.Response.StatusCode)
+	}
+	if v := last.Response.Header.Get("X-RestLi-Protocol-Version"); v != "2.0.0" {
+		return "protocol-version-header", fmt.Sprintf("status %d with X-RestLi-Protocol-Version %q", last.Response.StatusCode, v)
+	}
+	if v := last.Response.Header.Get("X-RestLi-Error-Response"); strings.ToLower(v) != "true" {
+		return "error-header", fmt.Sprintf("status %d with X-RestLi-Error-Response %q", last.Response.StatusCode, v)
+	}
+	var body struct {
+		Status  *int    `json:"status"`
+		Message *string `json:"message"`
+	}
+	if err := json.Unmarshal(last.Body, &body); err != nil || body.Status == nil || *body.Status != 404 || body.Message == nil || *body.Message != "nothing here" {
+		return "error-envelope", fmt.Sprintf("error body %s is not {status:404, message:...} (%v)", last.Body, err)
+	}
+	return "", ""
+}
+
 func partC03W(a *hcli.Args, rep *report.Report, univName string, u *schema.Universe) {
 	s := rep.S("created-id-and-location")
 	item, nres := 0, 0
@@ -157,4 +267,58 @@ func partC03W(a *hcli.Args, rep *report.Report, univName string, u *schema.Unive
 		}
 	}
 	s.Bounds = fmt.Sprintf("%d keyed collections (root and sub-resources) x {create, batch_create} x the full key alphabet (reduced below parents) x {no context path, /ctx/}: X-RestLi-Id / element id = the key in ROR2 header form, Location / element location = request path + \"/\" + the key escaped for a URL path, element status 201", nres)
+	// batch and error envelopes
+	se := rep.S("batch-and-error-envelopes")
+	nb := 0
+	for _, r := range u.Resources {
+		last := r.Segments[len(r.Segments)-1]
+		for _, m := range r.Methods {
+			item++
+			if !a.Mine(item) {
+				continue
+			}
+			se.States++
+			run := func(what string, kind, detail string) {
+				se.Evaluations++
+				se.Transitions++
+				se.Traces++
+				if kind != "" {
+					rep.Fail(fmt.Sprintf("%s response-envelope %s %s %s %s", a.Gen, kind, resourceKind(r), ClientMethod(m), what), fmt.Sprintf("%s.%s %s: %s", r.Name(), ClientMethod(m), what, detail), nil)
+					se.Class("fail:" + kind)
+				} else {
+					se.Class("ok:" + what)
+				}
+			}
+			kind, detail := checkErrorEnvelope(w, a.Gen, r, m)
+			run("error-response", kind, detail)
+			if last.KeyName == "" || len(r.ReadOnly)+len(r.CreateOnly) > 0 || len(r.Segments) > 1 {
+				continue
+			}
+			switch m.Name {
+			case "batch_get", "batch_update", "batch_partial_update", "batch_delete":
+			default:
+				continue
+			}
+			nb++
+			ka := keyAlphabet(last.KeyType, true)
+			var keys []*schema.V
+			for _, k := range ka {
+				if k.Fields != nil && k.Fields["$params"] != nil {
+					continue
+				}
+				if len(keys) < 2 {
+					keys = append(keys, k)
+				}
+			}
+			for _, kinds := range [][]string{{"result", "result"}, {"error", "error"}, {"result", "error"}, {"error", "result"}} {
+				if len(keys) < 2 {
+					break
+				}
+				kind, detail := checkBatchEnvelope(w, a.Gen, r, m, keys, kinds)
+				run("batch:"+strings.Join(kinds, "+"), kind, detail)
+			}
+		}
+	}
+	se.Bounds = fmt.Sprintf("every method of every resource answering an ErrorResponse(404): status, error header, protocol version header, JSON body {status, message}; %d batch methods of keyed root collections x {both keys succeed, both fail, one of each in either order}: the body has the results member (even when empty), every member is an object keyed by the keys in ROR2 header form, protocol version header", nb)
+
 }
